@@ -773,7 +773,11 @@ void ServerConn::handleSaslStart(const QDomElement &el, bool v2)
             srv->conformance << QStringLiteral("SCRAM: bad client nonce");
         }
         user = QString::fromUtf8(name);
-        salt = srv->rng.bytes(std::max(1, p.saltLen));
+        // a server stores one salt per account: later logins of the same account meet the same salt and iteration count
+        if (!srv->saltOf.contains(user)) {
+            srv->saltOf[user] = srv->rng.bytes(std::max(1, p.saltLen));
+        }
+        salt = srv->saltOf[user];
         QByteArray snonce = srv->rng.bytes(12).toBase64();
         nonce = cnonce + snonce;
         QByteArray iter = QByteArray::number(p.scramIter);
